@@ -29,9 +29,9 @@ Proof. exact SemProofs.unsized_subject_never_matches_sequence_pattern. Qed.
 Theorem map_pattern_on_non_map_is_no_match : forall f s keys v e,
   (match v with VMap _ => False | _ => True end) -> match_pat (S f) s (PMap keys) v e = MNo.
 Proof. exact SemProofs.map_pattern_on_non_map_is_no_match. Qed.
-Theorem match_without_arms_is_null : forall f cenv e s subj v e1 s1,
-  eval f cenv e s subj = (RVal v, e1, s1) ->
-  eval (S f) cenv e s (EMatch [subj] [] None) = (RVal VNull, e1, s1).
+Theorem match_without_arms_is_null : forall f cenv yt e s subj v e1 s1,
+  eval f cenv yt e s subj = (RVal v, e1, s1) ->
+  eval (S f) cenv yt e s (EMatch [subj] [] None) = (RVal VNull, e1, s1).
 Proof. exact SemProofs.match_without_arms_is_null. Qed.
 Theorem unpack_missing_is_null : forall f s x y v e,
   bind_target (S (S f)) s (TTuple [TId x None; TId y None]) (VTuple [v]) e
